@@ -132,7 +132,28 @@ def _impl_fit(case):
                     info.model_fluxes = None
                 info.keep(tuple(case['sel']))
                 want.append(fitutil.info_state(info, with_meta=True))
-    return dict(got=got, want=want, kinds=kinds, names=[l.split()[0] if l.split() else None for l in lines])
+        # the same through ONE Source object whose attributes are re-assigned for every line; the results are kept and looked at afterwards
+        kept = []
+        if case.get('bad_at') is None:
+            obj = None
+            for l in lines:
+                try:
+                    s = Source.from_ascii(l)
+                except EOFError:
+                    break
+                if obj is None:
+                    obj = s
+                else:
+                    obj.name, obj.x, obj.y = s.name, s.x, s.y
+                    obj.valid, obj.flux, obj.error = s.valid, s.flux, s.error
+                if int(obj.n_data) >= case['nmin']:
+                    info = fitter.fit(obj)
+                    if not case['convolved']:
+                        info.model_fluxes = None
+                    info.keep(tuple(case['sel']))
+                    kept.append(info)
+        want_reuse = [fitutil.info_state(i, with_meta=True) for i in kept]
+    return dict(got=got, want=want, want_reuse=want_reuse, kinds=kinds, names=[l.split()[0] if l.split() else None for l in lines])
 
 
 def _impl_roundtrip(case):
@@ -385,6 +406,10 @@ def judge(case, im, mo):
                 if (g['model_fluxes'] is not None) != bool(case['convolved']):
                     fail.append('convolved: predicted fluxes %s although output_convolved=%r' % ('present' if g['model_fluxes'] is not None else 'absent', case['convolved']))
                     break
+        if not fail and im.get('want_reuse') and im['want_reuse'] != im['want']:
+            bad = next((i for i, (a, b) in enumerate(zip(im['want_reuse'], im['want'])) if a != b), 0)
+            fail.append('kept: results of Fitter.fit kept while their Source object was re-used for the next sources no longer describe their own source (first difference at result %d: %r)'
+                        % (bad, [k for k in im['want'][bad] if im['want'][bad][k] != im['want_reuse'][bad].get(k)]))
         nelig = len(elig)
         tags += ['mode=' + case['mode'], 'sel=' + case['sel'][0], 'blank=%s' % (case['blank_at'] is not None)]
         return dict(disagree=disagree, fail=fail, nontrivial=0 < nelig < len(case['sources']), tags=tags)
